@@ -4,6 +4,7 @@ From L0 Require Import Types.
 From Gen Require Import Tables.
 From L1 Require Import Model Own Shape Stuck Live Wait Help Final Pool.
 From L1h Require Import Hist Abs Sim HistFacts.
+From L1g Require Import Frozen.
 From L1n Require Import Model Proj NInv Quiet Main Wf Examples PropsL1n.
 
 Lemma cln_own : own_conditions gen_tables.
@@ -68,6 +69,30 @@ Theorem C03n_nothing_lost_now : forall nq mx ntop (P : prog), nwf nq ntop P -> 1
     forall qo k, ns.(ops) !! i = Some (qo, Some k) -> k ∈ ns.(started) /\ done_b ns.(base) k = true.
 Proof. exact (C03n_nothing_lost gen_tables gen_facts cln_core cln_own cln_imm cln_dormant_blocks cln_sticky_notify). Qed.
 
+Theorem C10n_now : forall nq mx ntop (P : prog), nwf nq ntop P -> 1 <= mx ->
+  forall tr ns B0, nrun gen_tables gen_facts ntop P (ninit nq mx P) tr = Some ns ->
+    frozen_ok ns.(base) B0 -> nterminal_except gen_tables gen_facts ntop P B0 ns -> npool_free gen_tables gen_facts ns -> nquiet_except ntop P B0 ns.
+Proof. exact (C10n_blocked_objects_do_not_stop_the_others gen_tables gen_facts cln_core cln_own cln_imm cln_dormant_blocks cln_sticky_notify). Qed.
+
+(* Desync::drop is sync(free) and nothing else *)
+Lemma cln_drop_is_sync_free : fact_drop_is_sync_free = true. Proof. reflexivity. Qed.
+Lemma cln_drop_only_syncs : fact_drop_only_syncs = true. Proof. reflexivity. Qed.
+Theorem C05n_drop_after_returned_now : forall nq mx ntop (P : prog) tr ns A D q ka,
+  nrun gen_tables gen_facts ntop P (ninit nq mx P) tr = Some ns ->
+  Call A q ka ∈ ns.(nh) -> before (Ret A) (Call D q KSync) ns.(nh) ->
+  forall h3 h4, ns.(nh) = h3 ++ Run D q :: h4 -> Run A q ∈ h3.
+Proof. exact (C05n_drop_after_returned gen_tables gen_facts cln_own cln_imm). Qed.
+Theorem C05n_drop_runs_last_now : forall nq mx ntop (P : prog) tr ns D q h1 h2,
+  nrun gen_tables gen_facts ntop P (ninit nq mx P) tr = Some ns ->
+  ns.(nh) = h1 ++ Call D q KSync :: h2 ->
+  (forall B k, B <> D -> Call B q k ∈ ns.(nh) -> finished B h1) ->
+  forall h3 h4, ns.(nh) = h3 ++ Run D q :: h4 ->
+    (forall B, B <> D -> Push B q ∈ ns.(nh) -> Run B q ∈ h3) /\ (forall B, Run B q ∉ h4).
+Proof. exact (C05n_drop_runs_last gen_tables gen_facts cln_own cln_imm). Qed.
+
+Print Assumptions C10n_now.
+Print Assumptions C05n_drop_after_returned_now.
+Print Assumptions C05n_drop_runs_last_now.
 Print Assumptions C01n_now.
 Print Assumptions C02n_now.
 Print Assumptions C03n_exactly_once_now.
